@@ -342,7 +342,7 @@ def expand_bodies(text, root, record):
                 drops.append("%s=>%s" % (a, b))
         record.append({"source": ("src/" + rel) if not rel.startswith("src/") else rel, "item": locator,
                        "sha256_of_source_span": h, "renamed_to": newname, "substitutions": drops})
-        prefix = "pub " if "pub" in opts.split() else ""
+        prefix = "pub " if ("pub" in opts.split() and not new.lstrip().startswith("pub")) else ""
         return prefix + new
 
     text = re.sub(r"^[ \t]*//@@stubs-tables[ \t]*$", TABLE_STUBS, text, flags=re.M)
